@@ -142,6 +142,10 @@ func (r rlocker) Unlock() { r.m.RUnlock() }
 type WaitGroup struct {
 	n  int
 	hb uint64
+	// as in the real WaitGroup, misuse is shown to the race detector: the first Add from zero is modelled as
+	// a read, the first blocked Wait as a write of sema ("Add from zero must happen before Wait")
+	sema    byte
+	waiters int
 }
 
 //go:norace
@@ -158,6 +162,9 @@ func (w *WaitGroup) Add(delta int) {
 	t.wg = w
 	t.point()
 	t.wg = nil
+	if w.n == 0 && delta > 0 {
+		wgSemaRead(&w.sema)
+	}
 	w.n += delta
 }
 
@@ -183,10 +190,20 @@ func (w *WaitGroup) Done() {
 //go:norace
 func (w *WaitGroup) Wait() {
 	t := enter(true)
+	blocked := w.n != 0
+	if blocked {
+		if w.waiters == 0 {
+			wgSemaWrite(&w.sema)
+		}
+		w.waiters++
+	}
 	t.op = opWGWait
 	t.wg = w
 	t.point()
 	t.wg = nil
+	if blocked {
+		w.waiters-- // no closure here: closures inside //go:norace functions are instrumented
+	}
 	raceAcquire(unsafe.Pointer(w))
 }
 
@@ -497,3 +514,15 @@ func (c *Cond) Broadcast() {
 	}
 	c.waiters = nil
 }
+
+// wgSemaRead / wgSemaWrite are plain memory accesses the race detector instruments (runtime.RaceRead would
+// report without a usable stack): they make "Add from zero concurrent with Wait" visible as in the real
+// WaitGroup.  Outside race builds they are harmless.
+
+//go:noinline
+//verif:instrumented
+func wgSemaRead(p *byte) byte { return *p }
+
+//go:noinline
+//verif:instrumented
+func wgSemaWrite(p *byte) { *p++ }
